@@ -28,7 +28,7 @@ def run(d):
     finally:
         subprocess.run(['git', '-C', '/repo', 'worktree', 'remove', '--force', w], capture_output=True)
     return d, res
-with ThreadPoolExecutor(max_workers=12) as ex:
+with ThreadPoolExecutor(max_workers=int(os.environ.get('MATRIX_WORKERS', '12'))) as ex:
     out = list(ex.map(run, dirs))
 summary = {}
 for d, res in out:
